@@ -251,7 +251,7 @@ struct Exec
 	Ctx& ctx;
 	const Plan& plan;
 	Table tab, alt;
-	bool have_alt = false;
+	bool have_alt = false, alt_default = false;
 	std::vector<Slot> slots;
 	bool c09, c08;
 	bool saw_up = false, saw_down = false, saw_bis = false, saw_knot_corr = false;
@@ -937,6 +937,8 @@ struct Exec
 				if(!table_from_op(o, tab))
 					ctx.violate("harness:bad-plan", "table op malformed");
 			}
+			else if(o.kind == "altdefault")
+				alt_default = true;
 			else if(o.kind == "alt")
 			{
 				have_alt = table_from_op(o, alt);
@@ -1017,15 +1019,35 @@ struct Exec
 					Slot& d = slots[di];
 					if(mode == 1)
 					{
-						// copy-assign into an existing object (built on a different table if the slot was empty)
-						if(!d.live)
+						// copy-assign into an existing, already used object: built on the plan's alternative table (other size, or same
+						// shape and domain with other interior abscissae / other ordinates, or default-constructed) when there is one
+						if(!d.live || have_alt || alt_default)
 						{
 							const Table& other = (have_alt && alt.two_d == tab.two_d) ? alt : tab;
 							if(tab.two_d)
-								d.o2.reset(new Interpolation_2D(make2d(other)));
+							{
+								d.o2.reset(alt_default ? new Interpolation_2D() : new Interpolation_2D(make2d(other)));
+								const Table& q = other;
+								if(!alt_default)
+								{
+									(void) d.o2->Interpolate(0.5 * (q.xs[0] + q.xs[1]), 0.5 * (q.ys[0] + q.ys[1]));
+									(void) d.o2->Interpolate(0.5 * (q.xs[q.xs.size() - 2] + q.xs.back()), 0.5 * (q.ys[q.ys.size() - 2] + q.ys.back()));
+								}
+								else
+									(void) d.o2->Interpolate(0.5, -0.5);
+							}
 							else
-								d.o1.reset(new Interpolation(make1d(other)));
-							if(have_alt)
+							{
+								d.o1.reset(alt_default ? new Interpolation() : new Interpolation(make1d(other)));
+								if(!alt_default)
+								{
+									(void) d.o1->Interpolate(0.5 * (other.xs[0] + other.xs[1]));
+									(void) d.o1->Interpolate(0.5 * (other.xs[other.xs.size() - 2] + other.xs.back()));
+								}
+								else
+									(void) d.o1->Interpolate(0.5);
+							}
+							if(have_alt || alt_default)
 								ctx.probe(P_ASSIGN_OTHER);
 						}
 						if(tab.two_d)
@@ -1167,7 +1189,7 @@ struct Gen
 			static const std::vector<long long> Ns		 = {3, 4, 5, 8, 11, 12, 13, 30, 30, 64, 200, 2000};
 			static const std::vector<long long> NsQuick = {3, 4, 5, 8, 11, 12, 13, 30, 30, 64, 200};
 			size_t N = (size_t) (small ? r.pick(std::vector<long long>{3, 4, 5, 8}) : opts.tier == "thorough" ? r.pick(Ns) : r.pick(NsQuick));
-			if(opts.tier != "thorough" && !small && r.chance(0.02))
+			if(opts.tier != "thorough" && !small && r.chance(0.05))
 				N = 2000;
 			t.x = abscissae(r, N);
 			t.f = ordinates(r, N);
@@ -1258,7 +1280,8 @@ struct Gen
 
 	struct Client
 	{
-		int behaviour;	 // 0 walker 1 jumper 2 edge-sitter 3 knot-hitter
+		int behaviour;	 // 0 walker 1 jumper 2 edge-sitter 3 knot-hitter 4 stride-prober
+		int phase = 0;
 		long cursor;
 		long cursor_y;
 		int slot;
@@ -1288,6 +1311,31 @@ struct Gen
 			{
 				cursor = r.chance(0.5) ? 0 : N - 2;
 				return point(r, xs, cursor, r.chance(0.6) ? 3 : r.chance(0.5) ? 1 : 0);
+			}
+			case 4:
+			{
+				// stride-prober: a short upward step (keeps the object in hunting mode), then a jump whose length sits at or next to
+				// the boundaries of the doubling stride of the hunt (1, 3, 7, ..., 2^k-1 and 2^k, each -1..+2)
+				if((c.phase++ & 1) == 0)
+				{
+					cursor = std::max(0l, std::min(N - 2, cursor + (long) r.irange(0, 2)));
+					return point(r, xs, cursor, r.chance(0.2) ? 1 : 0);
+				}
+				long kmax = 0;
+				while((2l << kmax) < N)
+					kmax++;
+				long k	 = r.irange(0, kmax);
+				long off = (r.chance(0.5) ? (1l << k) - 1 : (1l << k)) + (long) r.irange(-1, 2);
+				if(off < 1)
+					off = 1;
+				long down = cursor - off, up = cursor + off;
+				long j = (r.chance(0.6) && down >= 0) ? down : (up <= N - 2 ? up : down);
+				if(j < 0 || j > N - 2)
+					j = r.irange(0, N - 2);
+				// the probe starts from where the last call left the object; afterwards restart somewhere else
+				double x = point(r, xs, j, r.chance(0.2) ? 1 : 0);
+				cursor	 = j;
+				return x;
 			}
 			default:
 			{
@@ -1321,10 +1369,43 @@ struct Gen
 		bool small = r.chance(0.15);
 		Table tab  = make_table(r, two_d, small);
 		p.ops.push_back(table_op("table", tab));
-		if(r.chance(0.5))
+		if(r.chance(0.6))
 		{
-			Table alt = make_table(r, two_d, true);
-			p.ops.push_back(table_op("alt", alt));
+			// the object that copy-assignments overwrite: a small unrelated table, a table of the SAME shape and domain with other
+			// interior abscissae and ordinates, the same abscissae with other ordinates, or a default-constructed object
+			int variant = (int) r.below(4);
+			if(variant == 0)
+				p.ops.push_back(table_op("alt", make_table(r, two_d, true)));
+			else if(variant == 3)
+				p.ops.push_back(Op("altdefault"));
+			else
+			{
+				Table alt = tab;
+				auto jiggle = [&](std::vector<double>& x) {
+					for(size_t i = 1; i + 1 < x.size(); i++)
+					{
+						double room = std::min(x[i] - x[i - 1], x[i + 1] - x[i]);
+						double nx	= x[i] + r.range(-0.4, 0.4) * room;
+						if(nx > x[i - 1] && nx < x[i + 1])
+							x[i] = nx;
+					}
+				};
+				if(variant == 1)
+				{
+					jiggle(alt.x);
+					if(two_d)
+						jiggle(alt.y);
+				}
+				alt.f = ordinates(r, alt.f.size());
+				alt.derive();
+				bool ok = true;
+				for(size_t i = 1; i < alt.xs.size(); i++)
+					ok = ok && alt.xs[i] > alt.xs[i - 1];
+				for(size_t i = 1; i < alt.ys.size(); i++)
+					ok = ok && alt.ys[i] > alt.ys[i - 1];
+				if(ok)
+					p.ops.push_back(table_op("alt", alt));
+			}
 		}
 		long maxops = opts.tier == "thorough" ? 4000 : 400;
 		if(tab.N() >= 2000)
@@ -1335,7 +1416,7 @@ struct Gen
 		long N = (long) tab.xs.size(), Ny = (long) tab.ys.size();
 		for(auto& c : cl)
 		{
-			c.behaviour = (int) r.below(4);
+			c.behaviour = (int) r.below(N >= 30 ? 5 : 4);
 			c.cursor	= r.irange(0, N - 2);
 			c.cursor_y	= two_d ? r.irange(0, Ny - 2) : 0;
 			c.slot		= 0;
@@ -1345,6 +1426,8 @@ struct Gen
 			cl[0].behaviour = 0;   // always one walker and one jumper when several clients share the object
 			cl[1].behaviour = 1;
 		}
+		if(N >= 1000 && r.chance(0.6))
+			cl[ncl - 1].behaviour = 4;	 // large tables: make sure the long strides of the hunt are probed
 		// op mix
 		double w_val, w_int, w_loc, w_glob, w_locate, w_pref, w_copy, w_sweep;
 		if(c08)
@@ -1520,7 +1603,7 @@ struct InterpEngine : Engine
 		// collect arguments still used by query ops
 		std::vector<double> used;
 		for(auto& o : p.ops)
-			if(o.kind != "table" && o.kind != "alt" && o.kind != "setpref" && o.kind != "mul")
+			if(o.kind != "table" && o.kind != "alt" && o.kind != "altdefault" && o.kind != "setpref" && o.kind != "mul")
 				for(double v : o.d)
 					used.push_back(v);
 		// 0. large 1D tables: keep only the neighbourhood (+-2 knots) of every argument still in use, plus both ends
